@@ -97,7 +97,20 @@ static int32_t verif_connect(struct qb_ipcs_service *s, struct qb_ipcs_connectio
 	g_connect_calls++; g_connect_at = ++g_clock;
 	return g_connect_rc;
 }
-static void verif_created(qb_ipcs_connection_t *c) { g_created_calls++; g_created_at = ++g_clock; g_refs_at_created = g_refs; }
+int g_created_disconnects, g_state_at_created;
+static void verif_created(qb_ipcs_connection_t *c)
+{
+	VERIF_ND(uint8_t, nd_created_disconnects);
+	g_created_calls++; g_created_at = ++g_clock; g_refs_at_created = g_refs; g_state_at_created = c->state;
+	if (nd_created_disconnects) {
+		/* the application disconnects the new connection from inside connection_created (a history C04 names).
+		 * Effect of the real qb_ipcs_disconnect on an ACTIVE connection (what unit ipc.disconnect proves):
+		 * the transport is torn down, the state becomes INACTIVE and the initial reference is dropped */
+		g_created_disconnects = 1;
+		c->state = QB_IPCS_CONNECTION_INACTIVE;
+		g_refs--;
+	}
+}
 
 void harness(void)
 {
@@ -116,7 +129,7 @@ void harness(void)
 	verif_send_never_partial = 1;   /* the response is sent in one piece or not at all (the retry loop of qb_ipc_us_send is not this unit's subject) */
 	verif_alloc_calls = 0; verif_alloc_never_fails = 0;
 	g_clock = 0; g_ref_calls = g_unref_calls = g_disc_calls = g_accept_calls = g_connect_calls = g_created_calls = 0;
-	g_mkdtemp_calls = g_chmod_calls = g_chown_calls = g_send_calls = 0; g_refs = 0; g_c = NULL; g_refs_at_created = 0;
+	g_mkdtemp_calls = g_chmod_calls = g_chown_calls = g_send_calls = 0; g_refs = 0; g_c = NULL; g_refs_at_created = 0; g_created_disconnects = 0; g_state_at_created = -1;
 	ASSUME(nd_auth_result <= 0 && nd_auth_result >= -133 && nd_accept_rc >= -133 && nd_accept_rc <= 133 && nd_connect_rc <= 0 && nd_connect_rc >= -133);
 	ASSUME(nd_req_max >= 1 && nd_req_max <= (1u << 20) && nd_srv_max <= (1u << 20));   /* range: buffer sizes up to 1 MiB */
 	g_accept_rc = nd_accept_rc; g_connect_rc = nd_connect_rc;
@@ -161,8 +174,16 @@ void harness(void)
 		}
 		if (g_created_calls == 1) {
 			POST(rc == 0 && g_connect_calls == 1 && nd_connect_rc == 0 && g_send_at < g_created_at, "connection_created only after accept, connect and a delivered response");
-			POST(g_refs_at_created >= 2 && g_refs == 1, "connection_created is bracketed by a temporary reference");
-			POST(g_c->state == QB_IPCS_CONNECTION_ESTABLISHED, "a created connection is established");
+			POST(g_state_at_created == QB_IPCS_CONNECTION_ACTIVE, "connection_created sees a connection that is linked but not yet established");
+			if (!g_created_disconnects) {
+				COVER(1);
+				POST(g_refs_at_created >= 2 && g_refs == 1, "connection_created is bracketed by a temporary reference");
+				POST(g_c->state == QB_IPCS_CONNECTION_ESTABLISHED, "a created connection is established");
+			} else {
+				COVER(1);
+				POST(g_refs_at_created >= 2 && g_refs == 0, "connection_created is bracketed by a temporary reference (after a disconnect inside it nothing is left)");
+				POST(g_c->state == QB_IPCS_CONNECTION_INACTIVE, "a connection that was disconnected inside connection_created stays disconnected (a later disconnect must not tear it down a second time)");
+			}
 		}
 		if (g_chmod_calls > 0) {
 			POST(g_mkdtemp_at < g_chmod_at && (g_chown_calls == 0 || g_chmod_at < g_chown_at), "directory: mkdtemp, then chmod, then chown");
